@@ -139,6 +139,9 @@ func genDagCase(t *rapid.T, cfg dagCfg) *DagCase {
 		c.CancelAfter = rapid.IntRange(0, total).Draw(t, "cancelafter")
 	}
 	c.Buffered = rapid.IntRange(0, 99).Draw(t, "buffered") < cfg.Buffered
+	if c.Buffered && rapid.IntRange(0, 5).Draw(t, "sinkfails") == 0 {
+		c.SinkFails = true
+	}
 	return c
 }
 
@@ -212,6 +215,9 @@ func (p *dprop) check(c *DagCase, st *evid.Stats) error {
 	}
 	if r.Model.Cycle {
 		st.Class("cycle")
+	}
+	if c.SinkFails {
+		st.Class("output-writer-fails")
 	}
 	if p.NT(c, r) {
 		var fp strings.Builder
